@@ -141,7 +141,7 @@ impl SessionEngine {
         openresponses_override: Option<OpenResponsesConfig>,
     ) {
         let openresponses = openresponses_override.or_else(|| self.openresponses.clone());
-        tokio::spawn(run_session(SessionContext {
+        let session = run_session(SessionContext {
             runtime: self.runtime.clone(),
             tool_runner: self.tool_runner.clone(),
             workspace_lock: self.workspace_lock.clone(),
@@ -155,7 +155,13 @@ impl SessionEngine {
             continuity_run: continuity,
             server_session_id: handle.session_id.clone(),
             input,
-        }));
+        });
+        #[cfg(rip_verif)]
+        let session = match rip_kernel::verif::spawn("sess.spawn", Box::pin(session)) {
+            Some(session) => session,
+            None => return,
+        };
+        tokio::spawn(session);
     }
 
     pub fn cancel_session(sessions: &mut HashMap<String, SessionHandle>, session_id: &str) -> bool {
